@@ -1,6 +1,7 @@
 package rules
 
 import (
+	"go/ast"
 	"fmt"
 	"go/constant"
 	"go/token"
@@ -91,6 +92,10 @@ func runSmall(c *core.Ctx) []core.Obligation {
 	smallKeyFoldingAgrees(c, b)
 	smallStructTagOptions(c, b)
 	smallWave18(c, b)
+	smallBitOrAbsentField(c, b)
+	smallDecoderReaderErrors(c, b)
+	smallWave19(c, b)
+	smallWave19b(c, b)
 	smallStringOptionNull(c, b)
 	smallStringOptionMarshaler(c, b)
 	return b.out
@@ -4437,6 +4442,530 @@ func smallWave18(c *core.Ctx, b *ob) {
 		}
 		if n == 0 && !badAny {
 			b.addP(props, core.Undecided, "map-decode:scratch-not-stored", "-", "no map decoder with a scratch slice found")
+		}
+	}
+}
+
+// S74 — a MessageRewriter applies the rules of fields that the input does not carry to an empty
+// value (Rewrite(out, nil)): under BitOr an absent field counts as zero. The varint arms of
+// bitOrRW.Rewrite decode an empty input to 0; the fixed-width arms must not hand it to
+// decodeLE32/decodeLE64, which report unexpected EOF.
+func smallBitOrAbsentField(c *core.Ctx, b *ob) {
+	props := []string{"C19"}
+	key := "bitor:absent-fixed-field-is-zero"
+	n, bad := 0, ""
+	for _, fn := range []*ssa.Function{c.Lookup("proto.(bitOrRW).Rewrite")} {
+		if fn == nil || fn.Blocks == nil || len(fn.Params) < 3 {
+			continue
+		}
+		in := fn.Params[2]
+		for _, ci := range callsIn(fn) {
+			f := staticCallee(ci.Common())
+			if f == nil || !(f.Name() == "decodeLE32" || f.Name() == "decodeLE64") || len(ci.Common().Args) != 1 || ci.Common().Args[0] != ssa.Value(in) {
+				continue
+			}
+			n++
+			guarded := false
+			blk := ci.(ssa.Instruction).Block()
+			if lo, _, excl := lenInterval(in, blk); (lo != nil && lo.Sign() > 0) || excl[0] {
+				guarded = true
+			}
+			if !guarded {
+				bad = c.InstrPos(ci)
+			}
+		}
+	}
+	switch {
+	case n == 0:
+		b.addP(props, core.Undecided, key, "-", "no fixed-width decode of the input found in bitOrRW.Rewrite")
+	case bad != "":
+		b.addP(props, core.Violation, key, bad, "bitOrRW.Rewrite decodes the fixed-width input without testing that there is one: for a field absent from the message (MessageRewriter calls Rewrite(out, nil)) the varint kinds or the mask into 0, the fixed32/fixed64 kinds fail with unexpected EOF — BitOr on a fixed32 field whose value is 0 (hence not encoded) makes the whole Rewrite fail")
+	default:
+		b.addP(props, core.Discharged, key, "-", fmt.Sprintf("%d fixed-width decode(s) of the input, each only when there is an input", n))
+	}
+}
+
+// S75 — Decoder.readValue and the reader's errors. (a) A number that ends exactly where the
+// buffered data ends is complete only if the stream has ended: after io.EOF. After any other
+// reader error the digits read so far may be the beginning of a longer number, and encoding/json
+// reports the error instead of yielding them. (b) The error the reader returned is what Decode
+// reports once the buffered values are used up: io.ErrUnexpectedEOF from the reader (a truncated
+// gzip stream) is not io.EOF.
+func smallDecoderReaderErrors(c *core.Ctx, b *ob) {
+	props := []string{"C11"}
+	fn := c.Lookup("json.(*Decoder).readValue")
+	if fn == nil {
+		b.addP(props, core.Undecided, "decoder-reader-errors", "-", "json.(*Decoder).readValue not found")
+		return
+	}
+	isGlobalLoad := func(v ssa.Value, name string) bool {
+		ld, ok := v.(*ssa.UnOp)
+		if !ok || ld.Op != token.MUL {
+			return false
+		}
+		g, ok := ld.X.(*ssa.Global)
+		return ok && g.Pkg != nil && g.Pkg.Pkg.Path() == "io" && g.Name() == name
+	}
+	isStickyErr := func(v ssa.Value) bool {
+		id, ok := fieldOfLoad(v)
+		return ok && id == "json.Decoder.err"
+	}
+	// (a)
+	{
+		key := "decoder:number-at-buffer-end-only-after-eof"
+		nilTest, eofTest := "", false
+		for _, blk := range fn.Blocks {
+			for _, in := range blk.Instrs {
+				bo, ok := in.(*ssa.BinOp)
+				if !ok || (bo.Op != token.NEQ && bo.Op != token.EQL) {
+					continue
+				}
+				// the test is part of the acceptance when its true edge leads straight to the block
+				// that consumes the value (skipSpacesN on the remainder), unlike the plain
+				// "if err = dec.err; err != nil" that ends the loop
+				accepts := false
+				if ifi, isIf := blk.Instrs[len(blk.Instrs)-1].(*ssa.If); isIf && ifi.Cond == ssa.Value(bo) {
+					for _, x := range blk.Succs[0].Instrs {
+						if call, isCall := x.(*ssa.Call); isCall && strings.HasSuffix(calleeName(call.Common()), "skipSpacesN") {
+							accepts = true
+						}
+					}
+				}
+				for _, ref := range *bo.Referrers() {
+					if _, isPhi := ref.(*ssa.Phi); isPhi {
+						accepts = true
+					}
+				}
+				if !accepts {
+					continue
+				}
+				switch {
+				case isStickyErr(bo.X) && isNilConst(bo.Y) && bo.Op == token.NEQ:
+					nilTest = c.InstrPos(bo)
+				case isStickyErr(bo.X) && isGlobalLoad(bo.Y, "EOF") && bo.Op == token.EQL:
+					eofTest = true
+				}
+			}
+		}
+		switch {
+		case nilTest != "":
+			b.addP(props, core.Violation, key, nilTest, "Decoder.readValue accepts a number that ends where the buffered data ends as soon as the reader has returned any error: after a failure in the middle of the stream ({} 12 followed by a connection reset, where 1234 was being sent) the truncated digits are yielded as a value; encoding/json yields a number at the end of the data only after io.EOF and reports the error otherwise")
+		case !eofTest:
+			b.addP(props, core.Undecided, key, c.FuncPos(fn), "no test of the sticky error against io.EOF found in readValue")
+		default:
+			b.addP(props, core.Discharged, key, c.FuncPos(fn), "a number at the end of the buffered data is accepted only after io.EOF")
+		}
+	}
+	// (b)
+	{
+		key := "decoder:reader-error-reported-as-it-is"
+		bad := ""
+		for _, blk := range fn.Blocks {
+			for _, in := range blk.Instrs {
+				bo, ok := in.(*ssa.BinOp)
+				if !ok || bo.Op != token.EQL {
+					continue
+				}
+				if isGlobalLoad(bo.Y, "ErrUnexpectedEOF") || isGlobalLoad(bo.X, "ErrUnexpectedEOF") {
+					bad = c.InstrPos(bo)
+				}
+			}
+		}
+		if bad != "" {
+			b.addP(props, core.Violation, key, bad, "Decoder.readValue turns an io.ErrUnexpectedEOF coming from the reader into io.EOF: io.ReadFull only produces that error together with n > 0, so with n == 0 it is the reader's own (a truncated gzip stream), and Decode reports a clean end of stream where encoding/json reports unexpected EOF")
+		} else {
+			b.addP(props, core.Discharged, key, c.FuncPos(fn), "reader errors are not rewritten")
+		}
+	}
+}
+
+// smallWave19 groups single-site clauses added after the nineteenth round of seeded changes.
+func smallWave19(c *core.Ctx, b *ob) {
+	// S76 — the scanners report input that ends in the middle of a token with an empty remainder
+	// (the Decoder then reads more and tries again): a syntaxError return reached only when the
+	// scan position is at the end of the buffered input, and which hands back a non-empty
+	// remainder, makes a value split across two reads fail.
+	{
+		props := []string{"C11", "C05"}
+		n := 0
+		for _, fn := range c.RepoFunctions() {
+			name := shortName(fn)
+			if fn.Blocks == nil || !strings.HasPrefix(name, "json.(decoder).parse") || len(fn.Params) < 2 || fn.Params[1].Type().String() != "[]byte" {
+				continue
+			}
+			in := fn.Params[1]
+			key := "truncation-is-not-a-syntax-error:" + name
+			bad := ""
+			count := 0
+			for _, r := range returnsOf(fn) {
+				if len(r.Results) != 4 {
+					continue
+				}
+				isSyntax := false
+				for _, o := range origins(r.Results[3]) {
+					if call, ok := o.(*ssa.Call); ok && strings.HasSuffix(calleeName(call.Common()), "json.syntaxError") {
+						isSyntax = true
+					}
+				}
+				if !isSyntax {
+					continue
+				}
+				count++
+				// a dominating edge that says: position (+k) == len(b), on a value that is not a constant
+				for _, e := range dominatingEdges(r.Block()) {
+					bo, ok := e.ifi.Cond.(*ssa.BinOp)
+					if !ok {
+						continue
+					}
+					la, isLen := lenArg(bo.Y)
+					if !isLen || la != ssa.Value(in) {
+						continue
+					}
+					if _, isK := constInt(bo.X); isK {
+						continue
+					}
+					atEnd := (bo.Op == token.EQL && e.succ == 0) || (bo.Op == token.NEQ && e.succ == 1) || (bo.Op == token.GEQ && e.succ == 0) || (bo.Op == token.LSS && e.succ == 1)
+					if !atEnd {
+						continue
+					}
+					// the scanners' convention for "the input ended here" is an empty remainder,
+					// whatever the error says: b[i:] with that i, or b[len(b):]
+					empty := false
+					for _, o := range origins(r.Results[1]) {
+						if sl, ok := o.(*ssa.Slice); ok && sl.X == ssa.Value(in) && sl.Low != nil && sl.High == nil {
+							if sl.Low == bo.X {
+								empty = true
+							}
+							if la2, isLen2 := lenArg(sl.Low); isLen2 && la2 == ssa.Value(in) {
+								empty = true
+							}
+						}
+					}
+					if !empty {
+						bad = c.InstrPos(r)
+					}
+				}
+			}
+			if count == 0 {
+				continue
+			}
+			n++
+			if bad != "" {
+				b.addP(props, core.Violation, key, bad, name+" returns a syntax error together with a non-empty remainder on a path taken only when the scan position has reached the end of the buffered input: the token may simply continue in the bytes not read yet (a backslash that is the last byte of a Decoder's buffer), and the Decoder fails a valid stream at that chunk boundary instead of reading more")
+			} else {
+				b.addP(props, core.Discharged, key, c.FuncPos(fn), fmt.Sprintf("%d syntax-error return(s); those reached at the end of the input hand back an empty remainder", count))
+			}
+		}
+		if n == 0 {
+			b.addP(props, core.Undecided, "truncation-is-not-a-syntax-error", "-", "no syntax-error return found in json's scanners")
+		}
+	}
+	// S77 — object keys are ordered as strings: with SortMapKeys the members of a map with integer
+	// keys come out in the order of their decimal texts ("-3" before "-5", "10" before "9"), like
+	// encoding/json. The comparators return a comparison of strings on every path.
+	for _, name := range []string{"json.intStringsAreSorted", "json.uintStringsAreSorted"} {
+		props := []string{"C14", "C01"}
+		key := "key-order:compares-texts:" + name
+		fn := c.Lookup(name)
+		if fn == nil {
+			b.addP(props, core.Undecided, key, "-", name+" not found")
+			continue
+		}
+		bad, n := "", 0
+		for _, r := range returnsOf(fn) {
+			if len(r.Results) != 1 {
+				continue
+			}
+			for _, o := range origins(r.Results[0]) {
+				n++
+				bo, ok := o.(*ssa.BinOp)
+				if !ok || !isStringType(bo.X.Type()) || !isStringType(bo.Y.Type()) {
+					bad = c.InstrPos(r)
+				}
+			}
+		}
+		switch {
+		case n == 0:
+			b.addP(props, core.Undecided, key, c.FuncPos(fn), "no return value found")
+		case bad != "":
+			b.addP(props, core.Violation, key, bad, name+" decides the order of two keys by something other than a comparison of their decimal texts on some path: map members are sorted as strings (\"-3\" before \"-5\"), a numeric shortcut orders them differently and the bytes no longer equal encoding/json's")
+		default:
+			b.addP(props, core.Discharged, key, c.FuncPos(fn), "every path compares the decimal texts")
+		}
+	}
+	// S78 — the whole-input flags of a Tokenizer describe the text it tokenizes: the argument of
+	// internalParseFlags is the very slice stored in Tokenizer.json, not a part of it.
+	for _, name := range []string{"json.NewTokenizer", "json.(*Tokenizer).Reset"} {
+		props := []string{"C17", "C05"}
+		key := "tokenizer:flags-describe-the-whole-text:" + name
+		fn := c.Lookup(name)
+		if fn == nil {
+			b.addP(props, core.Undecided, key, "-", name+" not found")
+			continue
+		}
+		var stored, scanned ssa.Value
+		for _, blk := range fn.Blocks {
+			for _, in := range blk.Instrs {
+				switch x := in.(type) {
+				case *ssa.Store:
+					if fa, ok := x.Addr.(*ssa.FieldAddr); ok && fieldAddrID(fa) == "json.Tokenizer.json" {
+						stored = x.Val
+					}
+				case *ssa.Call:
+					if f := staticCallee(x.Common()); f != nil && f.Name() == "internalParseFlags" && len(x.Call.Args) == 1 {
+						scanned = x.Call.Args[0]
+					}
+				}
+			}
+		}
+		switch {
+		case stored == nil || scanned == nil:
+			b.addP(props, core.Undecided, key, c.FuncPos(fn), "no store of Tokenizer.json together with a call of internalParseFlags")
+		case stored != scanned:
+			b.addP(props, core.Violation, key, c.FuncPos(fn), name+" computes the string fast-path flags (noBackslash, validAsciiPrint) over something other than the text it stores in Tokenizer.json (a prefix of it): an escape or a control character beyond the part examined is missed, strings are cut at an escaped quote and String() returns escaped bytes")
+		default:
+			b.addP(props, core.Discharged, key, c.FuncPos(fn), "the flags are computed over the text that is tokenized")
+		}
+	}
+	// S79 — Tokenizer.stack is nil until the first container opens (and after Reset): every method
+	// call on it is made where it was tested non-nil, or assigned.
+	{
+		props := []string{"C17", "C06"}
+		n := 0
+		for _, fn := range c.RepoFunctions() {
+			name := shortName(fn)
+			if fn.Blocks == nil || !strings.HasPrefix(name, "json.(*Tokenizer).") {
+				continue
+			}
+			count := 0
+			for _, ci := range callsIn(fn) {
+				cc := ci.Common()
+				f := staticCallee(cc)
+				if f == nil || f.Signature.Recv() == nil || len(cc.Args) == 0 || !strings.HasSuffix(f.Signature.Recv().Type().String(), "json.stack") {
+					continue
+				}
+				id, ok := fieldOfLoad(cc.Args[0])
+				if !ok || id != "json.Tokenizer.stack" {
+					continue
+				}
+				n++
+				count++
+				key := fmt.Sprintf("tokenizer:stack-non-nil:%s#%d", name, count)
+				blk := ci.(ssa.Instruction).Block()
+				guarded := false
+				check := func(cond ssa.Value, onTrue bool) {
+					bo, ok := cond.(*ssa.BinOp)
+					if !ok || !isNilConst(bo.Y) {
+						return
+					}
+					if fid, ok := fieldOfLoad(bo.X); !ok || fid != "json.Tokenizer.stack" {
+						return
+					}
+					if (bo.Op == token.NEQ && onTrue) || (bo.Op == token.EQL && !onTrue) {
+						guarded = true
+					}
+				}
+				for _, e := range dominatingEdges(blk) {
+					check(e.ifi.Cond, e.succ == 0)
+				}
+				// assigned on the nil branch just before (push: if t.stack == nil { t.stack = acquireStack() })
+				for _, b2 := range fn.Blocks {
+					for _, in := range b2.Instrs {
+						if st, ok := in.(*ssa.Store); ok {
+							if fa, ok := st.Addr.(*ssa.FieldAddr); ok && fieldAddrID(fa) == "json.Tokenizer.stack" && !isNilConst(st.Val) {
+								for _, e := range dominatingEdges(b2) {
+									bo, ok := e.ifi.Cond.(*ssa.BinOp)
+									if ok && isNilConst(bo.Y) && bo.Op == token.EQL && e.succ == 0 && e.ifi.Block().Dominates(blk) {
+										guarded = true
+									}
+								}
+							}
+						}
+					}
+				}
+				if guarded {
+					b.addP(props, core.Discharged, key, c.InstrPos(ci), "the stack was tested non-nil (or just acquired)")
+				} else {
+					b.addP(props, core.Violation, key, c.InstrPos(ci), name+" calls a method of Tokenizer.stack without a dominating test that it is not nil: the stack is nil until the first container opens and after every Reset, so a closing delimiter before any opening one (\"]\", \"true}\" after a Reset) makes Next dereference nil")
+				}
+			}
+		}
+		if n == 0 {
+			b.addP(props, core.Undecided, "tokenizer:stack-non-nil", "-", "no method call on Tokenizer.stack found")
+		}
+	}
+	// S80 — proto's table of primitive types names, for each integer type, the zig-zag type of the
+	// same width (Type.ZigZag): a 64-bit row that points at sint32 makes templates and BitOr
+	// rewriters truncate sint64 fields to 32 bits.
+	{
+		props := []string{"C19", "C12"}
+		key := "primitive-types:zigzag-same-width"
+		pp := c.Pkg("proto")
+		var lit *ast.CompositeLit
+		if pp != nil {
+			for _, f := range pp.Syntax {
+				ast.Inspect(f, func(nd ast.Node) bool {
+					vs, ok := nd.(*ast.ValueSpec)
+					if !ok || len(vs.Names) != 1 || vs.Names[0].Name != "primitiveTypes" || len(vs.Values) != 1 {
+						return true
+					}
+					lit, _ = vs.Values[0].(*ast.CompositeLit)
+					return false
+				})
+			}
+		}
+		if lit == nil {
+			b.addP(props, core.Undecided, key, "-", "proto.primitiveTypes not found")
+		} else {
+			rows, bad := 0, ""
+			for _, el := range lit.Elts {
+				row, ok := el.(*ast.CompositeLit)
+				if !ok {
+					continue
+				}
+				var nm, zz string
+				for _, kv := range row.Elts {
+					kve, ok := kv.(*ast.KeyValueExpr)
+					if !ok {
+						continue
+					}
+					k, _ := kve.Key.(*ast.Ident)
+					if k == nil {
+						continue
+					}
+					switch k.Name {
+					case "name":
+						if bl, ok := kve.Value.(*ast.BasicLit); ok {
+							nm = strings.Trim(bl.Value, "\"")
+						}
+					case "zigzag":
+						if id, ok := kve.Value.(*ast.Ident); ok {
+							zz = id.Name
+						}
+					}
+				}
+				if zz == "" {
+					continue
+				}
+				rows++
+				if strings.HasSuffix(nm, "32") != strings.HasSuffix(zz, "32") || strings.HasSuffix(nm, "64") != strings.HasSuffix(zz, "64") {
+					bad = fmt.Sprintf("%s: the row of %s names %s", c.PosOf(row.Pos()), nm, zz)
+				}
+			}
+			switch {
+			case rows == 0:
+				b.addP(props, core.Undecided, key, c.PosOf(lit.Pos()), "no row with a zigzag entry")
+			case bad != "":
+				b.addP(props, core.Violation, key, c.PosOf(lit.Pos()), "proto.primitiveTypes pairs an integer type with a zig-zag type of another width ("+bad+"): a field tagged zigzag64 is described as sint32, so a rewrite template rejects values beyond 32 bits and a BitOr rewriter drops the bits above bit 31 of the original value")
+			default:
+				b.addP(props, core.Discharged, key, c.PosOf(lit.Pos()), fmt.Sprintf("%d rows name a zig-zag type, each of the row's own width", rows))
+			}
+		}
+	}
+}
+
+func smallWave19b(c *core.Ctx, b *ob) {
+	// S81 — a BitOr rule always yields a rewriter: with a zero mask the field keeps its value. A
+	// nil Rewriter returned without an error is taken by parseRewriteTemplateStruct for "replace
+	// the field with nothing".
+	{
+		props := []string{"C19"}
+		key := "bitor:constructor-returns-a-rewriter"
+		fn := c.Lookup("proto.BitOrRewriter")
+		if fn == nil {
+			b.addP(props, core.Undecided, key, "-", "proto.BitOrRewriter not found")
+		} else {
+			n, bad := 0, ""
+			for _, r := range returnsOf(fn) {
+				if len(r.Results) != 2 || !isNilConst(r.Results[1]) {
+					continue
+				}
+				n++
+				for _, o := range origins(r.Results[0]) {
+					if isNilConst(o) {
+						bad = c.InstrPos(r)
+					}
+				}
+			}
+			switch {
+			case n == 0:
+				b.addP(props, core.Undecided, key, c.FuncPos(fn), "BitOrRewriter has no success return")
+			case bad != "":
+				b.addP(props, core.Violation, key, bad, "BitOrRewriter returns a nil Rewriter without an error (for a zero mask): the struct template then holds an empty rule for the field, and MessageRewriter.Rewrite replaces the field with nothing — a non-zero value under BitOr with mask 0 is deleted instead of kept")
+			default:
+				b.addP(props, core.Discharged, key, c.FuncPos(fn), "every success return hands back a bitOrRW")
+			}
+		}
+	}
+	// S82 — size and encode agree on when wantzero stops applying: the flag that makes the first
+	// field of a message reached through a pointer write its zero value is dropped once a field
+	// has been emitted, in structSizeFuncOf exactly where structEncodeFuncOf drops it — inside the
+	// emission branch.
+	{
+		props := []string{"C16", "C03"}
+		wz, ok := protoConst(c, "wantzero")
+		for _, spec := range [][2]string{{"proto.structEncodeFuncOf$1", "encode"}, {"proto.structSizeFuncOf$1", "size"}} {
+			key := "proto:wantzero-dropped-on-emission:" + spec[1]
+			fn := c.Lookup(spec[0])
+			if fn == nil || !ok {
+				b.addP(props, core.Undecided, key, "-", spec[0]+" or proto.wantzero not found")
+				continue
+			}
+			// the emission blocks: where a tag is accounted for or written
+			var emits []*ssa.BasicBlock
+			for _, blk := range fn.Blocks {
+				for _, in := range blk.Instrs {
+					switch x := in.(type) {
+					case *ssa.Call:
+						if calleeName(x.Common()) == "github.com/segmentio/encoding/proto.encodeTag" {
+							emits = append(emits, blk)
+						}
+					case *ssa.UnOp:
+						if id, ok := fieldOfLoad(x); ok && strings.HasSuffix(id, "structField.tagsize") {
+							emits = append(emits, blk)
+						}
+					}
+				}
+			}
+			n, bad := 0, ""
+			for _, ci := range callsIn(fn) {
+				cc := ci.Common()
+				if !strings.HasSuffix(calleeName(cc), "flags).without") || len(cc.Args) != 2 {
+					continue
+				}
+				if k, isK := constInt(cc.Args[1]); !isK || k != wz {
+					continue
+				}
+				n++
+				blk := ci.(ssa.Instruction).Block()
+				inEmission := false
+				for _, e := range emits {
+					if e == blk || e.Dominates(blk) {
+						inEmission = true
+					}
+				}
+				// the repeated-field loop drops it after a non-empty encode: dominated by a size/n > 0 test
+				if !inEmission {
+					for _, e := range dominatingEdges(blk) {
+						if bo, ok := e.ifi.Cond.(*ssa.BinOp); ok && bo.Op == token.GTR && e.succ == 0 {
+							if k, isK := constInt(bo.Y); isK && k == 0 {
+								inEmission = true
+							}
+						}
+					}
+				}
+				if !inEmission {
+					bad = c.InstrPos(ci)
+				}
+			}
+			switch {
+			case n == 0:
+				b.addP(props, core.Undecided, key, c.FuncPos(fn), "no flags.without(wantzero) found")
+			case bad != "":
+				b.addP(props, core.Violation, key, bad, spec[0]+" drops wantzero on a path where no field was emitted: its sibling keeps the flag until a field has actually been written, so the two disagree for a message reached through a pointer whose first field writes nothing (type node struct{Next *node; Value int} with a last node of value 0) — Size is 0 where two bytes are written, and Marshal fails with a short buffer")
+			default:
+				b.addP(props, core.Discharged, key, c.FuncPos(fn), fmt.Sprintf("%d drop(s) of wantzero, each after an emission", n))
+			}
 		}
 	}
 }
